@@ -177,7 +177,7 @@ def tlc(work, module, cfg=None, workers=None, args=None, timeout=600, deque=Fals
     out = p.stdout.decode("utf-8", "replace")
     shutil.rmtree(meta, ignore_errors=True)
     res = {"rc": p.returncode, "out": out, "wall_s": time.time() - t0, "generated": 0, "distinct": 0, "depth": 0}
-    m = re.findall(r"(\d[\d,]*) states generated, (\d[\d,]*) distinct states found", out)
+    m = re.findall(r"(?m)^(\d[\d,]*) states generated, (\d[\d,]*) distinct states found", out)
     if m:
         res["generated"] = int(m[-1][0].replace(",", ""))
         res["distinct"] = int(m[-1][1].replace(",", ""))
